@@ -4,8 +4,8 @@
      - no extract_element call returns XOOB (repaired code: any input, ExtractProofs),
      - OOB site_null_group is excluded by the closedness of the schema tables,
      - Diverge is never returned (repaired decode_group),
-     - the OOB sites of the fixed-width extractor (tag write; uninitialised tag read) only if a
-       Length/data pair exists (nd = false), the tag write only with a digit run >= 2048 (dr = false),
+     - the fixed-width extractor (repaired by ce1e2cc) returns no OOB and terminates the tag, so the
+       tag buffer always reads as a C string (no uninitialised read),
      - Fuel is never returned when the fuel covers the remaining input
        (every turn of every loop consumes at least two bytes of it). *)
 From Coq Require Import NArith ZArith List Bool Lia.
@@ -58,68 +58,52 @@ Proof.
   cbn [upd_trait]. destruct (t_fnum x =? f); cbn [forallb]; [reflexivity|]. rewrite IH. reflexivity.
 Qed.
 
-Lemma nolen_upd v : forall ts f, nolen_b (upd_trait (set_present v) ts f) = nolen_b ts.
-Proof.
-  unfold nolen_b. induction ts as [|x r IH]; intros f; [reflexivity|].
-  cbn [upd_trait]. destruct (t_fnum x =? f); cbn [forallb]; [reflexivity|]. rewrite IH. reflexivity.
-Qed.
+(* the object invariant: its trait table is closed w.r.t. its nested classes, these are ok *)
+Definition mb_ok (m : mbase) : bool := closed_b (mb_fp m) (mb_subs m) && subs_ok (mb_subs m).
 
-Lemma nolen_find ts f tr : nolen_b ts = true -> find_trait ts f = Some tr ->
-  negb (t_ftype tr =? ft_Length) || (f =? Common_BodyLength) = true.
-Proof.
-  intros Hn Hf. destruct (find_trait_in _ _ _ Hf) as [Hin He].
-  unfold nolen_b in Hn. rewrite forallb_forall in Hn. specialize (Hn _ Hin). rewrite He in Hn. exact Hn.
-Qed.
-
-(* the object invariant: its trait table is closed w.r.t. its nested classes, these are ok,
-   and (when nd is assumed) it has no Length/data pair *)
-Definition mb_ok (nd : bool) (m : mbase) : bool :=
-  closed_b (mb_fp m) (mb_subs m) && subs_ok (mb_subs m) && (negb nd || nolen_b (mb_fp m)).
-
-Lemma mb_ok_same nd m m' : mb_fp m' = mb_fp m -> mb_subs m' = mb_subs m -> mb_ok nd m' = mb_ok nd m.
+Lemma mb_ok_same m m' : mb_fp m' = mb_fp m -> mb_subs m' = mb_subs m -> mb_ok m' = mb_ok m.
 Proof. unfold mb_ok. intros -> ->. reflexivity. Qed.
 
-Lemma mb_ok_field nd m f p v : mb_ok nd (mark_present (add_field_decoder m f p v) f) = mb_ok nd m.
+Lemma mb_ok_field m f p v : mb_ok (mark_present (add_field_decoder m f p v) f) = mb_ok m.
 Proof.
   destruct m. unfold mb_ok, mark_present, add_field_decoder.
-  cbn [mb_fp mb_subs with_fp with_pos with_fields mb_fields mb_pos]. rewrite closed_upd, nolen_upd. reflexivity.
+  cbn [mb_fp mb_subs with_fp with_pos with_fields mb_fields mb_pos]. rewrite closed_upd. reflexivity.
 Qed.
 
-Lemma mb_ok_unknown nd m u : mb_ok nd (with_unknown m u) = mb_ok nd m.
+Lemma mb_ok_unknown m u : mb_ok (with_unknown m u) = mb_ok m.
 Proof. destruct m. reflexivity. Qed.
 
-Lemma mb_ok_groups nd m g : mb_ok nd (with_groups m g) = mb_ok nd m.
+Lemma mb_ok_groups m g : mb_ok (with_groups m g) = mb_ok m.
 Proof. destruct m. reflexivity. Qed.
 
 Lemma fp_field m f p v : mb_subs (mark_present (add_field_decoder m f p v) f) = mb_subs m.
 Proof. destruct m. reflexivity. Qed.
 
-Lemma mb_ok_closed nd m f tr : mb_ok nd m = true -> find_trait (mb_fp m) f = Some tr ->
+Lemma mb_ok_closed m f tr : mb_ok m = true -> find_trait (mb_fp m) f = Some tr ->
   t_group tr = true -> is_some (find_sub (mb_subs m) f) = true.
 Proof.
-  unfold mb_ok. intros H. apply andb_true_iff in H. destruct H as [H _].
-  apply andb_true_iff in H. destruct H as [H _]. apply closed_find. exact H.
+  unfold mb_ok. intros H. apply andb_true_iff in H. destruct H as [H _]. apply closed_find. exact H.
 Qed.
 
 Lemma mb_ok_group_elem gm : gm_ok gm = true ->
-  mb_ok false (create_group gm false) = true /\
+  mb_ok (create_group gm false) = true /\
   existsb t_present (mb_fp (create_group gm false)) = false.
 Proof.
   destruct gm as [ts subs d]. rewrite gm_ok_unfold. intros H.
   apply andb_true_iff in H. destruct H as [H H4]. apply andb_true_iff in H. destruct H as [H1 H2].
-  unfold mb_ok, create_group. cbn [mb_fp mb_subs g_traits g_subs negb orb].
+  unfold mb_ok, create_group. cbn [mb_fp mb_subs g_traits g_subs].
   rewrite H1, H4. split; [reflexivity|]. apply negb_true_iff in H2. exact H2.
 Qed.
 
 (* ------------------------------------------------------------------ results *)
 Section Good.
-Variable bd dr nd : bool.   (* sizes assumed sane / digit runs assumed bounded / no Length-data pair *)
+Variable bd : bool.   (* are the sizes assumed sane (fsize <= |from|)? *)
 
 Definition rgood {A} (nofuel : Prop) (post : A -> Prop) (r : res A) : Prop :=
   match r with
   | Ok a => post a
   | Exc _ => True
-  | OOB s => bd = false \/ (nd = false /\ (s = site_uninit_tag \/ (s = site_tag_write /\ dr = false)))
+  | OOB s => bd = false
   | Diverge => False
   | Fuel => ~ nofuel
   end.
@@ -151,8 +135,6 @@ Hypothesis Hct : MAX_FLD_LENGTH <= cap_tag cp.
 Hypothesis Hcv : MAX_FLD_LENGTH <= cap_val cp.
 Variable bd : bool.     (* are the sizes sane (fsize <= |from|)?  false: statements about Fuel only *)
 Hypothesis Hfs : bd = true -> fsize <= lenN from.
-Variable dr : bool.     (* are the digit runs of the input assumed shorter than 2048? *)
-Hypothesis Hdr : dr = true -> digit_runs_ok MAX_FLD_LENGTH 0 from = true.
 
 Notation adv := (adv (lenN from)).
 
@@ -251,17 +233,15 @@ Lemma decode_group_S fuel' m f off : dgG (S fuel') m f off =
   end.
 Proof. reflexivity. Qed.
 
-(* nd := true in the results of the group functions: they never call the fixed-width extractor,
-   so (with sane sizes) they return no OOB at all *)
 Lemma dg_all : forall fuel,
-  (forall grp pos off, mb_ok false grp = true ->
-     rgood bd dr true (2 * (lenN from - off) + 1 <= N.of_nat fuel) (post_elem grp off)
+  (forall grp pos off, mb_ok grp = true ->
+     rgood bd (2 * (lenN from - off) + 1 <= N.of_nat fuel) (post_elem grp off)
            (dg_elem c cp from fsize fuel grp pos off)) /\
   (forall gm els off, gm_ok gm = true ->
-     rgood bd dr true (2 * (lenN from - off) + 2 <= N.of_nat fuel) (fun x => adv off (snd x))
+     rgood bd (2 * (lenN from - off) + 2 <= N.of_nat fuel) (fun x => adv off (snd x))
            (dg_loop c cp from fsize fuel gm els off)) /\
-  (forall m f off nd, mb_ok nd m = true -> is_some (find_sub (mb_subs m) f) = true ->
-     rgood bd dr true (2 * (lenN from - off) + 3 <= N.of_nat fuel) (post_grp m off)
+  (forall m f off, mb_ok m = true -> is_some (find_sub (mb_subs m) f) = true ->
+     rgood bd (2 * (lenN from - off) + 3 <= N.of_nat fuel) (post_grp m off)
            (decode_group c cp from fsize fuel m f off)).
 Proof.
   induction fuel as [|fuel' IH].
@@ -272,7 +252,7 @@ Proof.
     intros grp pos off Hok. rewrite dg_elem_S; cbv zeta.
     destruct (off <? fsize); [|rg; split; [apply adv_refl|discriminate]].
     destruct (tok_at_cases off) as [(tag & val & r & Ht & Hr2 & HrR)|[(t & v & Ht)|(Hbd & s & Ht)]]; rewrite Ht;
-      [|rg; split; [apply adv_refl|discriminate]|rg; left; exact Hbd].
+      [|rg; split; [apply adv_refl|discriminate]|rg; exact Hbd].
     destruct (find_trait (mb_fp grp) (fast_atoi_u32 tag mod 65536)) as [tr|] eqn:Ef.
     2:{ destruct (pos =? 0); rg; [exact I|split; [apply adv_refl|discriminate]]. }
     destruct (t_present tr) eqn:Ep.
@@ -281,16 +261,16 @@ Proof.
     destruct (find_be (c_fields c) (fast_atoi_u32 tag mod 65536)); [|rg; split; [apply adv_refl|discriminate]].
     set (tv := fast_atoi_u32 tag mod 65536) in *.
     set (g1 := mark_present (add_field_decoder grp tv (pos + 1) (cstr val)) tv).
-    assert (Hg1 : mb_ok false g1 = true) by (unfold g1; rewrite mb_ok_field; exact Hok).
+    assert (Hg1 : mb_ok g1 = true) by (unfold g1; rewrite mb_ok_field; exact Hok).
     assert (Hadv1 : adv off (off + r)) by (unfold DecodeProofs.adv; lia).
     destruct (t_group tr && has_group_count_c c tv (cstr val)) eqn:Eg.
     + apply andb_true_iff in Eg. destruct Eg as [Eg _].
       assert (Hsub : is_some (find_sub (mb_subs g1) tv) = true).
-      { unfold g1. rewrite fp_field. exact (mb_ok_closed _ _ _ _ Hok Ef Eg). }
-      specialize (IH3 g1 tv (off + r) false Hg1 Hsub).
+      { unfold g1. rewrite fp_field. exact (mb_ok_closed _ _ _ Hok Ef Eg). }
+      specialize (IH3 g1 tv (off + r) Hg1 Hsub).
       destruct (decode_group c cp from fsize fuel' g1 tv (off + r)) as [[g2 off2]| | | |]; rg in IH3; rg; try exact IH3.
       * destruct IH3 as (Ha2 & Hfp & Hsb).
-        assert (Hg2 : mb_ok false g2 = true) by (rewrite (mb_ok_same false g1 g2 Hfp Hsb); exact Hg1).
+        assert (Hg2 : mb_ok g2 = true) by (rewrite (mb_ok_same g1 g2 Hfp Hsb); exact Hg1).
         specialize (IH1 g2 (pos + 1) off2 Hg2).
         destruct (dg_elem c cp from fsize fuel' g2 (pos + 1) off2) as [[[[g3 p3] o3] w3]| | | |]; rg in IH1; rg; try exact IH1.
         { destruct IH1 as [Ha3 _]. split; [exact (adv_trans _ _ _ Hadv1 (adv_trans _ _ _ Ha2 Ha3))|].
@@ -319,62 +299,60 @@ Proof.
     + exact (adv_trans _ _ _ Ha IH2).
     + unfold DecodeProofs.adv in *. lia.
   - (* decode_group *)
-    intros m f off nd Hok Hsub. rewrite decode_group_S; cbv zeta. unfold find_add_group.
+    intros m f off Hok Hsub. rewrite decode_group_S; cbv zeta. unfold find_add_group.
     destruct (find_sub (mb_subs m) f) as [gm|] eqn:Es; [|discriminate].
     assert (Hgm : gm_ok gm = true).
-    { unfold mb_ok in Hok. apply andb_true_iff in Hok. destruct Hok as [Hok _].
-      apply andb_true_iff in Hok. destruct Hok as [_ Hok]. exact (find_sub_ok _ _ _ Hok Es). }
+    { unfold mb_ok in Hok. apply andb_true_iff in Hok. destruct Hok as [_ Hok]. exact (find_sub_ok _ _ _ Hok Es). }
     match goal with |- context [dg_loop c cp from fsize fuel' gm ?e off] => specialize (IH2 gm e off Hgm);
       destruct (dg_loop c cp from fsize fuel' gm e off) as [[els off']| | | |] end; rg in IH2; rg; try exact IH2; [|lia].
     destruct m. cbn. auto.
 Qed.
 
-Lemma decode_group_good fuel m f off nd :
-  mb_ok nd m = true -> is_some (find_sub (mb_subs m) f) = true ->
-  rgood bd dr true (2 * (lenN from - off) + 3 <= N.of_nat fuel) (post_grp m off)
+Lemma decode_group_good fuel m f off :
+  mb_ok m = true -> is_some (find_sub (mb_subs m) f) = true ->
+  rgood bd (2 * (lenN from - off) + 3 <= N.of_nat fuel) (post_grp m off)
         (decode_group c cp from fsize fuel m f off).
-Proof. intros H1 H2. exact (proj2 (proj2 (dg_all fuel)) m f off nd H1 H2). Qed.
+Proof. intros H1 H2. exact (proj2 (proj2 (dg_all fuel)) m f off H1 H2). Qed.
 
 (* ------------------------------------------------------------------ MessageBase::decode *)
-Variable nd : bool.
 Variable permissive : bool.
 Variable gfuel : nat.
 Hypothesis Hg : 2 * lenN from <= N.of_nat gfuel + 1.
 
 Lemma dec_finish_good P pm m off pos lvp lvo :
-  rgood bd dr nd P (fun _ : mbase * N => True) (dec_finish pm m off pos lvp lvo).
+  rgood bd P (fun _ : mbase * N => True) (dec_finish pm m off pos lvp lvo).
 Proof. unfold dec_finish. destruct (find_missing (mb_fp m)); rg; exact I. Qed.
 
 Lemma opt_group_good m tr tv v off :
-  mb_ok nd m = true -> (t_group tr = true -> is_some (find_sub (mb_subs m) tv) = true) ->
+  mb_ok m = true -> (t_group tr = true -> is_some (find_sub (mb_subs m) tv) = true) ->
   lenN from - off + 2 <= lenN from ->
-  rgood bd dr nd True (post_opt m off) (opt_group c cp from fsize gfuel m tr tv v off).
+  rgood bd True (post_opt m off) (opt_group c cp from fsize gfuel m tr tv v off).
 Proof.
   intros Hok Hsub Hoff. unfold opt_group.
   destruct (t_group tr && has_group_count_c c tv v) eqn:Eg; [|rg; auto using N.le_refl].
   apply andb_true_iff in Eg. destruct Eg as [Eg _].
-  pose proof (decode_group_good gfuel m tv off nd Hok (Hsub Eg)) as H.
+  pose proof (decode_group_good gfuel m tv off Hok (Hsub Eg)) as H.
   destruct (decode_group c cp from fsize gfuel m tv off) as [[m' off']| | | |]; rg in H; rg.
   - unfold DecodeProofs.adv in H. tauto.
   - exact I.
-  - destruct H as [H|[H _]]; [left; exact H|discriminate].
+  - exact H.
   - exact H.
   - lia.
 Qed.
 
 Lemma dec_loop_good : forall fuel m off pos lvp lvo tb,
-  mb_ok nd m = true ->
-  rgood bd dr nd (lenN from - off + 1 <= N.of_nat fuel) (fun _ => True)
+  mb_ok m = true ->
+  rgood bd (lenN from - off + 1 <= N.of_nat fuel) (fun _ => True)
         (dec_loop c cp from fsize permissive gfuel fuel m off pos lvp lvo tb).
 Proof.
   induction fuel as [|fuel' IH]; intros m off pos lvp lvo tb Hok; [cbn [dec_loop]; rg; lia|].
   cbn [dec_loop].
   destruct (off <=? fsize); [|apply dec_finish_good].
   destruct (tok_at_cases off) as [(tag & val & r & Ht & Hr2 & HrR)|[(t & v & Ht)|(Hbd & s & Ht)]]; rewrite Ht;
-    [|apply dec_finish_good|rg; left; exact Hbd].
+    [|apply dec_finish_good|rg; exact Hbd].
   (* every continuation of the loop starts at an offset >= off + r *)
-  assert (Hnext : forall m' off' pos' lvp' lvo' tb', mb_ok nd m' = true -> off + r <= off' ->
-            rgood bd dr nd (lenN from - off + 1 <= N.of_nat (S fuel')) (fun _ => True)
+  assert (Hnext : forall m' off' pos' lvp' lvo' tb', mb_ok m' = true -> off + r <= off' ->
+            rgood bd (lenN from - off + 1 <= N.of_nat (S fuel')) (fun _ => True)
                   (dec_loop c cp from fsize permissive gfuel fuel' m' off' pos' lvp' lvo' tb')).
   { intros m' off' pos' lvp' lvo' tb' Hm' Ho'.
     eapply rgood_weaken; [apply (IH m' off' pos' lvp' lvo' tb' Hm')| |auto]. lia. }
@@ -387,37 +365,26 @@ Proof.
   destruct (find_be (c_fields c) tv); [|exact I].
   set (pos1 := (pos + 1) mod 4294967296).
   set (m1 := mark_present (add_field_decoder m tv pos1 (cstr val)) tv).
-  assert (Hm1 : mb_ok nd m1 = true) by (unfold m1; rewrite mb_ok_field; exact Hok).
+  assert (Hm1 : mb_ok m1 = true) by (unfold m1; rewrite mb_ok_field; exact Hok).
   assert (Hs1 : t_group tr = true -> is_some (find_sub (mb_subs m1) tv) = true).
-  { intros Eg. unfold m1. rewrite fp_field. exact (mb_ok_closed _ _ _ _ Hok Ef Eg). }
+  { intros Eg. unfold m1. rewrite fp_field. exact (mb_ok_closed _ _ _ Hok Ef Eg). }
   pose proof (opt_group_good m1 tr tv (cstr val) (off + r) Hm1 Hs1 ltac:(lia)) as Ho.
   destruct (opt_group c cp from fsize gfuel m1 tr tv (cstr val) (off + r)) as [[m2 off2]| | | |];
     rg in Ho; try (rg; first [exact Ho | exact I | tauto]).
   destruct Ho as (Ho2 & Hfp2 & Hsb2).
-  assert (Hm2 : mb_ok nd m2 = true) by (rewrite (mb_ok_same nd m1 m2 Hfp2 Hsb2); exact Hm1).
+  assert (Hm2 : mb_ok m2 = true) by (rewrite (mb_ok_same m1 m2 Hfp2 Hsb2); exact Hm1).
   destruct (negb (t_ftype tr =? ft_Length) || (tv =? Common_BodyLength)) eqn:El.
   { apply Hnext; [exact Hm2|lia]. }
-  (* a Length field: the schema has a Length/data pair, so nd = false *)
-  assert (Hnd : nd = false).
-  { destruct nd; [|reflexivity]. exfalso.
-    unfold mb_ok in Hok. apply andb_true_iff in Hok. destruct Hok as [_ Hok]. cbn [negb orb] in Hok.
-    pose proof (nolen_find _ _ _ Hok Ef) as Hx. fold tv in Hx. rewrite El in Hx. discriminate. }
   destruct (MAX_FLD_LENGTH - 1 <? fast_atoi_u32 val) eqn:Evs; [exact I|].
-  apply N.ltb_ge in Evs.
   destruct (extract_element_fixed_width (skipN off2 from) (fsize - off2) (fast_atoi_u32 val) (cap_tag cp) (cap_val cp))
     as [tag2 val2 result2|t2 v2|s2] eqn:Efw.
-  3:{ rg. destruct bd eqn:Eb; [right|left; reflexivity]. split; [exact Hnd|]. right.
-      assert (Hsz : fsize - off2 <= lenN (skipN off2 from)) by (rewrite lenN_skipN; pose proof (Hfs eq_refl); lia).
-      assert (Hvs : fast_atoi_u32 val < cap_val cp) by (unfold MAX_FLD_LENGTH in *; lia).
-      assert (Ht0 : 0 < cap_tag cp) by (unfold MAX_FLD_LENGTH in *; lia).
-      split.
-      - exact (extract_fw_sites _ _ _ _ _ _ Ht0 Hvs Hsz Efw).
-      - destruct dr eqn:Ed; [|reflexivity]. exfalso. revert Efw.
-        apply (extract_fw_safe MAX_FLD_LENGTH); try assumption.
-        + reflexivity.
-        + apply digit_runs_skip. exact (Hdr eq_refl). }
+  3:{ rg. destruct bd eqn:Eb; [|reflexivity]. exfalso. revert Efw. apply extract_fw_safe.
+      - unfold MAX_FLD_LENGTH in *. lia.
+      - unfold MAX_FLD_LENGTH in *. lia.
+      - rewrite lenN_skipN. pose proof (Hfs eq_refl). lia. }
   2:{ exact I. }
-  destruct (cstr_known (tagbuf_after_fw tag2 (tagbuf_after tag tb))) as [tagstr|]; [|rg; right; auto].
+  destruct (cstr_known (tagbuf_after_fw tag2 (tagbuf_after tag tb))) as [tagstr|] eqn:Eck;
+    [|exfalso; exact (cstr_known_terminated _ _ Eck)].
   set (tv2 := fast_atoi_u16 tagstr).
   destruct (find_trait (mb_fp m2) tv2) as [tr2|] eqn:Ef2.
   2:{ destruct permissive; [|apply dec_finish_good].
@@ -427,14 +394,14 @@ Proof.
   destruct (find_be (c_fields c) tv2); [|exact I].
   set (pos2 := (pos1 + 1) mod 4294967296).
   set (m3 := mark_present (add_field_decoder m2 tv2 pos2 (cstr val2)) tv2).
-  assert (Hm3 : mb_ok nd m3 = true) by (unfold m3; rewrite mb_ok_field; exact Hm2).
+  assert (Hm3 : mb_ok m3 = true) by (unfold m3; rewrite mb_ok_field; exact Hm2).
   assert (Hs3 : t_group tr2 = true -> is_some (find_sub (mb_subs m3) tv2) = true).
-  { intros Eg. unfold m3. rewrite fp_field. exact (mb_ok_closed _ _ _ _ Hm2 Ef2 Eg). }
+  { intros Eg. unfold m3. rewrite fp_field. exact (mb_ok_closed _ _ _ Hm2 Ef2 Eg). }
   pose proof (opt_group_good m3 tr2 tv2 (cstr val2) (off2 + result2) Hm3 Hs3 ltac:(lia)) as Ho3.
   destruct (opt_group c cp from fsize gfuel m3 tr2 tv2 (cstr val2) (off2 + result2)) as [[m4 off4]| | | |];
     rg in Ho3; try (rg; first [exact Ho3 | exact I | tauto]).
   destruct Ho3 as (Ho4 & Hfp4 & Hsb4).
-  apply Hnext; [rewrite (mb_ok_same nd m3 m4 Hfp4 Hsb4); exact Hm3|lia].
+  apply Hnext; [rewrite (mb_ok_same m3 m4 Hfp4 Hsb4); exact Hm3|lia].
 Qed.
 
 End Loops.
